@@ -81,8 +81,8 @@ func AssignToStr(dst, src any, buf AccumulativeBuffer) (ok bool) {
 			)
 			// Worst case, try to convert source to bytes.
 			if buf == nil {
-				p = byteconv.S2B(*dst.(*string))
-				p, err = x2bytes.ToBytes(p, src)
+				// Replace, don't extend: convert into a fresh slice (the old string is immutable).
+				p, err = x2bytes.ToBytes(nil, src)
 				if ok = err == nil; ok {
 					*dst.(*string) = byteconv.B2S(p)
 				}
